@@ -170,6 +170,20 @@ Theorem pool_members_are_protein_substrings : forall wt water lim r exc prots q,
 Proof. exact pool_members_come_from_proteins. Qed.
 Print Assumptions pool_members_are_protein_substrings.
 
+(* "including the N-terminal-methionine-removed form unless the transcript is cds_start_NF": the
+   known-start digest contains the cds_start_NF digest, and every extra product sits right after
+   the initial M of the protein *)
+Theorem known_start_digest_contains_nf_digest : forall wt water lim r exc s p,
+  In p (cleave wt water lim r exc true s) -> In p (cleave wt water lim r exc false s).
+Proof. exact cleave_nf_subset. Qed.
+Print Assumptions known_start_digest_contains_nf_digest.
+
+Theorem known_start_extra_products_follow_initial_M : forall wt water lim r exc s p,
+  In p (cleave wt water lim r exc false s) -> ~ In p (cleave wt water lim r exc true s) ->
+  exists v, s = M_code :: p ++ v.
+Proof. exact cleave_known_start_extra. Qed.
+Print Assumptions known_start_extra_products_follow_initial_M.
+
 From MoPep Require Gen.Py_AminoAcidSeqRecord.
 From MoPep Require Import Model.PyRt Proofs.Py2CoqDigestProofs.
 
